@@ -109,7 +109,7 @@ var props = map[string]*propMeta{
 		},
 	},
 	"C09": {
-		level: "fault_enumeration", quickBudget: 100, thoroughBudget: 1500, stall: 8,
+		level: "fault_enumeration", driver: true, quickBudget: 100, thoroughBudget: 1500, stall: 14,
 		rule: "A case = (looping shape from a fixed catalogue or a generated script in a loop wrapper, optimizer flag, front end Run/Execute, cancellation plan). " +
 			"Enumerated part: for every catalogue shape and both optimizer settings, cancellation at EVERY simulated clock value 0..K (K=260 quick, 5000 thorough, 1500 for recursive shapes), already-expired, and cancellation from inside host call 1..12. " +
 			"Random part: seeded (VERIF_SEED) shapes/plans incl. large clock values and slow host functions. " +
